@@ -26,6 +26,9 @@ def Err.isValueError : Err → Bool
   | .valueError | .invalidCharge | .emptyMolecule | .invalidV2000 | .invalidMolBlock | .emptyReaction => true
   | _ => false
 
+/-- is the exception swallowed by `MDLRead.__iter__` (`except (ValueError, LookupError)` since fix 075882e)? -/
+def Err.isSkipped (e : Err) : Bool := e.isValueError || e == .indexError || e == .keyError
+
 abbrev R := Except Err
 
 instance [DecidableEq ε] [DecidableEq α] : DecidableEq (Except ε α)
